@@ -205,4 +205,77 @@ theorem unparse_semantic_single (cs : ParserInst) (hc : cs.cls = "CoAPParser") (
       rw [List.filter_append, seg_filter c3 mc]
       simp [payload_unclaimed _ mc]
 
+/-! ### the dispatch on three segments, for arbitrary field lists (what the decompressor rebuilds) -/
+
+def ClaimedBy (own : String) (l : Compute.Fields) : Prop := ∀ x ∈ l, claims own x.1 = true
+
+theorem claimedBy_filter {own n : String} {l : Compute.Fields} (h : ClaimedBy own l) (hn : n ∈ stackNames) :
+    l.filter (fun f => strContains f.1 n) = if (n == own) = true then l else [] :=
+  filter_const _ _ _ (fun x hx => claims_contains (h x hx) hn)
+
+theorem claimedBy_unclaimed {own : String} {l : Compute.Fields} (h : ClaimedBy own l) (names : List String) (ho : own ∈ names) (hs : own ∈ stackNames) :
+    l.filter (fun f => !(names.any (strContains f.1 ·))) = [] := by
+  apply List.filter_eq_nil_iff.mpr
+  intro x hx
+  have := claims_contains (h x hx) hs
+  simp only [beq_self_eq_true] at this
+  intro hcon
+  have hany : names.any (strContains x.1 ·) = true := List.any_eq_true.mpr ⟨own, ho, this⟩
+  simp [hany] at hcon
+
+/-- IP / UDP / CoAP: a field list made of a segment claimed by the IP parser, one claimed by UDP, one claimed by CoAP and
+    the payload is un-parsed segment by segment; only the CoAP parser changes its segment -/
+theorem packetUnparse_three {ip : ParserInst} {name : String} {layout : Layout} (hip : IsIp ip name layout)
+    (udp : ParserInst) (hu : udp.cls = "UDPParser") (cs : ParserInst) (hc : cs.cls = "CoAPParser")
+    (A B C : Compute.Fields) (pl : ABuf) (hA : ClaimedBy name A) (hB : ClaimedBy Gen.udpHeaderId B) (hC : ClaimedBy Gen.coapHeaderId C) :
+    packetUnparse [ip, udp, cs] (A ++ B ++ C ++ [(Gen.payloadId, pl)]) =
+      (headerUnparse cs C).map (fun c => A ++ B ++ c ++ [(Gen.payloadId, pl)]) := by
+  obtain ⟨hcls, _⟩ := hip
+  have ipfacts : parserNameOf ip = .ok name ∧ (∀ fs, headerUnparse ip fs = .ok fs) ∧ name ∈ stackNames ∧
+      (name == Gen.udpHeaderId) = false ∧ (name == Gen.coapHeaderId) = false := by
+    rcases hcls with ⟨h1, h2, _⟩ | ⟨h1, h2, _⟩
+    · subst h2
+      exact ⟨by unfold parserNameOf; rw [h1]; rfl, fun fs => by unfold headerUnparse; rw [h1]; rfl, names_distinct.1,
+        names_distinct.2.2.2.2.1, names_distinct.2.2.2.2.2.1⟩
+    · subst h2
+      exact ⟨by unfold parserNameOf; rw [h1]; rfl, fun fs => by unfold headerUnparse; rw [h1]; rfl, names_distinct.2.1,
+        names_distinct.2.2.2.2.2.2.1, names_distinct.2.2.2.2.2.2.2.1⟩
+  obtain ⟨n1, u1, m1, d1u, d1c⟩ := ipfacts
+  have n2 : parserNameOf udp = .ok Gen.udpHeaderId := by unfold parserNameOf; rw [hu]; rfl
+  have u2 : ∀ fs, headerUnparse udp fs = .ok fs := by intro fs; unfold headerUnparse; rw [hu]; rfl
+  have n3 : parserNameOf cs = .ok Gen.coapHeaderId := by unfold parserNameOf; rw [hc]; rfl
+  have mu := names_distinct.2.2.1
+  have mc := names_distinct.2.2.2.1
+  have duc := names_distinct.2.2.2.2.2.2.2.2
+  have sym : ∀ {x y : String}, (x == y) = false → (y == x) = false := by
+    intro x y h; rw [beq_eq_false_iff_ne] at h ⊢; exact fun e => h e.symm
+  unfold packetUnparse
+  simp only [List.mapM_cons, List.mapM_nil, n1, n2, n3, bind, Except.bind, pure, Except.pure]
+  have hz : [ip, udp, cs].zip [name, Gen.udpHeaderId, Gen.coapHeaderId] =
+      ([(ip, name, A), (udp, Gen.udpHeaderId, B), (cs, Gen.coapHeaderId, C)] : List (ParserInst × String × Compute.Fields)).map (fun t => (t.1, t.2.1)) := rfl
+  rw [hz, unparseClaimed_segments]
+  · simp only [List.map_cons, List.map_nil, unparseSegs, u1, u2, bind, Except.bind, pure, Except.pure, List.append_nil]
+    cases headerUnparse cs C with
+    | error e => rfl
+    | ok c =>
+      simp only [Except.map]
+      congr 1
+      simp only [List.append_assoc]
+      congr 3
+      rw [List.filter_append, List.filter_append, List.filter_append,
+        claimedBy_unclaimed hA _ (by simp) m1, claimedBy_unclaimed hB _ (by simp) mu, claimedBy_unclaimed hC _ (by simp) mc]
+      simp [payload_unclaimed _ m1, payload_unclaimed _ mu, payload_unclaimed _ mc]
+  · intro t ht
+    simp only [List.mem_cons, List.not_mem_nil, or_false] at ht
+    rcases ht with rfl | rfl | rfl
+    · simp only
+      rw [List.filter_append, List.filter_append, List.filter_append, claimedBy_filter hA m1, claimedBy_filter hB m1, claimedBy_filter hC m1]
+      simp [payload_unclaimed _ m1, d1u, d1c]
+    · simp only
+      rw [List.filter_append, List.filter_append, List.filter_append, claimedBy_filter hA mu, claimedBy_filter hB mu, claimedBy_filter hC mu]
+      simp [payload_unclaimed _ mu, sym d1u, duc]
+    · simp only
+      rw [List.filter_append, List.filter_append, List.filter_append, claimedBy_filter hA mc, claimedBy_filter hB mc, claimedBy_filter hC mc]
+      simp [payload_unclaimed _ mc, sym d1c, sym duc]
+
 end Schc
